@@ -356,6 +356,8 @@ func init() {
 			c.Count("validated")
 			// premises of the termination theorem for runs with recovery
 			c.Emit(fmt.Sprintf("lr.recovery_ok %d | $%s", len(fr.Table.States), p.Name), "ok")
+			// exactness: every item/lookahead of the generator's item sets is justified by the LALR(1) definition
+			c.Emit(fmt.Sprintf("lr.justify %d %d | %s | $%s | %s", len(g.Terminals), len(g.Rules), grammarLine(g), p.Name, certLine(fr.Table)), "ok")
 			if s.UsesError() {
 				c.Count("grammars-with-@error")
 			}
